@@ -384,8 +384,8 @@ def fam_nested(tier, rng):
         x = var("X", t)
         inner = [b.let(var("Z", t), bump(t, var("Z", t)))]
         mid = [b.call("INNER", [x]), b.let(x, bump(t, x))]
-        main = [b.let(var("A", t), v0(t)), b.call("MID", [var("A", t)]), b.print(var("A", t))]
-        out.append({"fam": "chain:" + t, "prog": prog(main, [sub("MID", [("X", t)], mid), sub("INNER", [("Z", t)], inner)])})
+        main = [b.let(var("A", t), v0(t)), b.call("MIDL", [var("A", t)]), b.print(var("A", t))]
+        out.append({"fam": "chain:" + t, "prog": prog(main, [sub("MIDL", [("X", t)], mid), sub("INNER", [("Z", t)], inner)])})
     return out
 
 
@@ -1028,6 +1028,74 @@ def fam_round9(tier, rng):
 
 
 FAMILIES.append(fam_round9)
+
+
+def fam_array_params(tier, rng):
+    """whole arrays as arguments (A()): the callee works on the caller's array - what it stores (itself, or by handing the array
+    or one of its elements further down, to a SUB or to a FUNCTION called inside an expression) is there after the call"""
+    out = []
+    for t in ("I", "$", "D"):
+        def v(i):
+            return lit("$", "v%d" % i) if t == "$" else lit("I", i)
+        for mid in ("sub", "fun-let", "fun-if", "fun-print", "none"):
+            for deep in ("sub", "fun"):
+                for midwrites in ("no", "before", "after"):
+                    for passes in ("whole", "element"):
+                        if mid == "none" and (midwrites != "no" or passes == "element"):
+                            continue
+                        b = B()
+                        X = lambda i: idx("X", t, [lit("I", i)])
+                        Y = lambda i: idx("Y", t, [lit("I", i)])
+                        A = lambda i: idx("A", t, [lit("I", i)])
+                        # the procedure at the bottom stores into its parameter
+                        if passes == "whole":
+                            dbody = [b.let(Y(1), v(7)), b.let(Y(3), v(9)), b.print(lit("$", "deep"), Y(2))]
+                            dparams = [("Y", t, "", True)]
+                            darg = arr("X", t)
+                        else:
+                            dbody = [b.print(lit("$", "deep"), var("E", t)), b.let(var("E", t), v(7))]
+                            dparams = [("E", t)]
+                            darg = X(1)
+                        if deep == "fun":
+                            dbody.append(b.let(var("DEEP", "I"), lit("I", 1)))
+                            subs = [fun("DEEP", "I", dparams, dbody)]
+                        else:
+                            subs = [sub("DEEP", dparams, dbody)]
+
+                        def calldeep(argexpr, how):
+                            if deep == "sub":
+                                return [b.call("DEEP", [argexpr])]
+                            fc = fcall("DEEP", "I", [argexpr], 0)
+                            if how == "fun-if":
+                                st = b.if_([(bin_("=", fc, lit("I", 1)), [b.print(lit("$", "yes"))])])
+                            elif how == "fun-print":
+                                st = b.print(lit("$", "r"), fc)
+                            else:
+                                st = b.let(var("N", "I"), fc)
+                            fc["sid"] = st["id"]
+                            return [st]
+                        main = [b.dim("A", t, [dimspec(1, 3)]), b.let(A(2), v(5))]
+                        if mid == "none":
+                            main += calldeep(arr("A", t), "fun-let")
+                        else:
+                            mbody = ([b.let(X(2), v(6))] if midwrites == "before" else []) + calldeep(darg, mid if mid != "sub" else "fun-let") + \
+                                    ([b.let(X(2), v(8))] if midwrites == "after" else []) + [b.print(lit("$", "mid"), X(1), X(2), X(3))]
+                            if mid == "sub":
+                                subs.append(sub("MIDL", [("X", t, "", True)], mbody))
+                                main += [b.call("MIDL", [arr("A", t)])]
+                            else:
+                                mbody.append(b.let(var("MIDL", "I"), lit("I", 2)))
+                                subs.append(fun("MIDL", "I", [("X", t, "", True)], mbody))
+                                fc = fcall("MIDL", "I", [arr("A", t)], 0)
+                                st = b.let(var("K", "I"), fc)
+                                fc["sid"] = st["id"]
+                                main += [st]
+                        main += [b.print(lit("$", "main"), A(1), A(2), A(3))]
+                        out.append({"fam": "array-params:%s/%s/%s/%s/%s" % (t, mid, deep, midwrites, passes), "prog": prog(main, subs)})
+    return out
+
+
+FAMILIES.append(fam_array_params)
 
 
 def cases(tier, seed):
